@@ -89,10 +89,10 @@ def parseOpts (d q e h : String) : Option Opts :=
   | _, _ => none
 
 /-- reason tag for a table the model does not expect to survive export + import -/
-def whyTag (o : Opts) (t : Table) (texts : List (List Bytes)) : String :=
-  if t.any (fun r => r.any Option.isNone) then "null-cell"
-  else if t.any (fun r => r.any fun c => match c with | some (.str []) => true | _ => false) then "empty-string"
-  else if texts.any (fun r => r.any List.isEmpty) then "empty-text"
+def whyTag (o : Opts) (t : Table) (_texts : List (List Bytes)) : String :=
+  if t.any (fun r => r.any fun c => match c with | some (.str []) => true | _ => false) then "empty-string"
+  else if t.any (fun r => r.any fun c => match c with
+      | some (.interval a b c) => (displayInterval a b c).isEmpty | _ => false) then "empty-text"
   else if o.delim == o.quote || isTerm o.delim || isTerm o.quote then "bad-options"
   else "cell-text"
 
